@@ -83,7 +83,8 @@ BijClauses(e) ==
 \* [C10] "fewer than t shares carry no information": the t-1 coefficients of the 32 per-byte polynomials (recovered by the driver
 \* from t shares, over several splits with different randomness) must be independent: no two slots agree in every split, none is constant
 IndepClauses(e) ==
-    IF e.outcome # "ok" THEN {"C10.split-terminates-with-n-shares"}
+    IF e.outcome = "skipped" THEN {}       \* the driver could not reach the tree's field arithmetic (no verdict either way)
+    ELSE IF e.outcome # "ok" THEN {"C10.split-terminates-with-n-shares"}
     ELSE (IF e.wrong_secret = 0 THEN {} ELSE {"C10.reconstruct-wrong"})
          \cup (IF e.dup = 0 /\ e.constant = 0 THEN {} ELSE {"C10.coefficients-not-independent"})
 
